@@ -109,7 +109,7 @@ add('C16', 'exploration', 'Hypothesis rule-based state machine, history-independ
 add('C17', 'fault_enumeration', 'Hypothesis-drawn files x enumeration of every fault point (truncation offset, bad byte, bad charset, failing n-th event), public-API probe oracle',
     'For each drawn (charset, texts) file every load truncation offset and every listed load/save fault is executed; '
     'after every call a probe through the public API shows whether latin1 is in force again; the success path compares '
-    'file bytes with text.encode(charset) via the strict reference decoder. Faults include an output file whose n-th write() fails (exception kept alive) and misspelt charsets; success path also through real files and charset assignment after construction; texts that look like another encoding's signature or are special in Unicode; latin1 transparency probes after every call.',
+    'file bytes with text.encode(charset) via the strict reference decoder. Faults include an output file whose n-th write() fails (exception kept alive) and misspelt charsets; success path also through real files and charset assignment after construction; texts that look like the signature of another encoding or are special in Unicode; latin1 transparency probes after every call.',
     TRUST + ' Faults are those a load/save can meet from its inputs (no injected OS errors).')
 add('C18', 'fault_enumeration', 'Hypothesis-drawn message lists x enumeration of every disconnect offset over socketpair, prefix oracle; TCP PortServer scenarios; exhaustive address grid',
     'Every cut offset of every drawn stream (segmentation and poll placement drawn) is executed on an AF_UNIX socketpair '
